@@ -22,7 +22,8 @@ B, C = M.B, M.C
 SHEETS = ['S', 'My Data', 'lower', 'x-y', "It's", '1st']
 
 
-def build_spec(sn):
+def build_spec(sn, same=False):
+    U = sn if same else 'U'      # the second book's sheet may carry the same name as the first book's
     K, cell, rng, op, fn, num, const = M.K, M.cell, M.rng, M.op, M.fn, M.num, M.const
     cells = {
         K(sn, 'A1'): const(('n', 3.0)), K(sn, 'A2'): const(('n', 0.5)), K(sn, 'A3'): const(('t', 'txt')), K(sn, 'A5'): const(('b', True)),
@@ -31,7 +32,7 @@ def build_spec(sn):
         K(sn, 'B5'): ['txt', '=x'], K(sn, 'B6'): op('&', cell(sn, 'A3'), cell(sn, 'A1')), K(sn, 'B7'): op('=', cell(sn, 'A1'), num(3)),
         K(sn, 'B8'): op('+', ['txt', 'abc'], num(1)),
         K('T', 'A1'): op('+', cell(sn, 'A1'), num(1)),
-        K('U', 'A1', C): const(('n', 10.0)), K('U', 'B1', C): op('*', cell(sn, 'A1'), cell('U', 'A1', C)),
+        K(U, 'A1', C): const(('n', 10.0)), K(U, 'B1', C): op('*', cell(sn, 'A1'), cell(U, 'A1', C)), K(U, 'A3', C): const(('t', 'other book')),
     }
     arrays = {
         K(sn, 'G1:G1'): op('*', cell(sn, 'A1'), num(2)),
@@ -40,7 +41,7 @@ def build_spec(sn):
         K(sn, 'G8:H9'): op('+', rng(sn, 'A1:A2'), num(0)),
         K(sn, 'J1:K2'): op('&', rng(sn, 'A5:A6'), ['txt', '']),
     }
-    return {'cells': cells, 'arrays': arrays, 'names': {}, 'sheets': [[B, sn], [B, 'T'], [C, 'U']]}
+    return {'cells': cells, 'arrays': arrays, 'names': {}, 'sheets': [[B, sn], [B, 'T'], [C, U]]}
 
 
 def cases(tier):
@@ -49,6 +50,8 @@ def cases(tier):
             for over in (False, True):
                 for target in ('fresh', 'loaded', 'disk'):
                     yield ['write', sn, origin, over, target]
+                    if sn in ('S', 'My Data', "It's"):
+                        yield ['write', sn, origin, over, target, 'same-sheet-name']
 
 
 def convert(v):
@@ -68,22 +71,24 @@ def convert(v):
 
 
 def run_case(case):
-    _, sn, origin, over, target = case
+    _, sn, origin, over, target = case[:5]
+    same = len(case) > 5
     import formulas, openpyxl
     import numpy as np
     import schedula as sh
     from formulas.ranges import Ranges
     from xl import wbspec as X
     from xl.evalcell import exc_name
-    spec = build_spec(sn)
-    desc = dict(sheet=sn, origin=origin, over=over, target=target)
+    spec = build_spec(sn, same)
+    U = sn if same else 'U'
+    desc = dict(sheet=sn, origin=origin, over=over, target=target, same=same)
     fails, ex, oc = [], 0, set()
     cwd = os.getcwd()
     with X.Scratch() as d:
         try:
             paths = X.write_files(spec, d)
             # sentinels: cells no formula refers to
-            for p, (sheet, coord) in ((paths[B], (sn, 'Z50')), (paths[C], ('U', 'Z50'))):
+            for p, (sheet, coord) in ((paths[B], (sn, 'Z50')), (paths[C], (U, 'Z50'))):
                 wb = openpyxl.load_workbook(p)
                 wb[sheet][coord] = 'sentinel'
                 wb.save(p)
@@ -91,7 +96,7 @@ def run_case(case):
             if origin == 'loads':
                 m = formulas.ExcelModel().loads(B, C).finish()
             else:
-                outs = [X.lib_id(B, sn, c) for c in ('B6', 'B8', 'G8:H9', 'J1:K2', 'B3')] + [X.lib_id(B, 'T', 'A1'), X.lib_id(C, 'U', 'B1')]
+                outs = [X.lib_id(B, sn, c) for c in ('B6', 'B8', 'G8:H9', 'J1:K2', 'B3')] + [X.lib_id(B, 'T', 'A1'), X.lib_id(C, U, 'B1')]
                 m = formulas.ExcelModel().from_ranges(*outs).finish()
             inputs = {X.lib_id(B, sn, 'A1'): 99, X.lib_id(B, sn, 'A3'): '=y'} if over else {}
             sol = m.calculate(inputs)
@@ -117,7 +122,7 @@ def run_case(case):
         finally:
             os.chdir(cwd)
         wbs = {k.upper(): v[formulas.BOOK] for k, v in books.items()}
-        expected_sheets = {B.upper(): {sn.upper(), 'T'}, C.upper(): {'U'}}
+        expected_sheets = {B.upper(): {sn.upper(), 'T'}, C.upper(): {U.upper()}}
         for bk, wb in wbs.items():
             titles = [t.upper() for t in wb.sheetnames]
             extra = set(titles) - expected_sheets.get(bk, set())
@@ -164,7 +169,7 @@ def run_case(case):
         ex += n_cells
         # sentinels untouched
         if target in ('loaded',):
-            for bk, (sheet, coord) in ((B, (sn, 'Z50')), (C, ('U', 'Z50'))):
+            for bk, (sheet, coord) in ((B, (sn, 'Z50')), (C, (U, 'Z50'))):
                 wb = wbs.get(bk.upper())
                 if wb is not None:
                     ws = [w for w in wb.worksheets if w.title.upper() == sheet.upper()]
